@@ -149,15 +149,25 @@ def gen_plan(seed, idx):
                 else:
                     k = "direct"
             a["kind"] = k
+            if k == "unmasked" and r.chance(0.4):
+                a["um_extra"] = r.range(1, 20)     # the unmasked-length operand is itself a masked reference
             a["n"] = n
             if i == mismatch_at:
                 a["n"] = max(0, n + r.choice([-1, 1, -7, 13, -n + 1]))
                 if a["kind"] in ("alias", "unmasked"):
                     a["kind"] = "direct"
                     a.pop("alias_of", None)
+                    a.pop("um_extra", None)
             if k == "masked":
                 a["extra"] = r.range(1, 40)
         args.append(a)
+    # a deliberately mismatched operand must not hit the unmasked length of a masked left-hand side by accident
+    # (that length is legal and selects through the mask: it is the 'unmasked' kind, generated on purpose above)
+    if args and args[0].get("kind") == "masked":
+        total0 = args[0]["n"] + args[0]["extra"]
+        for a in args[1:]:
+            if a.get("kind") in ("direct", "readonly", "masked") and a["n"] == total0 and a["n"] != args[0]["n"]:
+                a["n"] += 1
     W = r.weighted([(2, 1), (4, 2), (4, 3), (5, 4), (3, 7), (3, 8), (2, 13), (3, 16)])
     pool = {"W": W, "part": r.below(8), "assign": r.below(6), "order": r.below(6),
             "empty": r.choice([0.0, 0.0, 0.1, 0.3]), "sub": r.next() >> 1,
@@ -254,8 +264,20 @@ class World:
                 # as long as the left-hand side's underlying array
                 a0 = plan["args"][0]
                 total = a0["n"] + a0.get("extra", 0)
-                arr = PT.make_array(t, gen_array_elems(t, total, cs, mode, affine))
-                self.tracked.append(("arg%d" % i, t, arr))
+                if a.get("um_extra"):
+                    big = total + a["um_extra"]
+                    pos = list(range(big))
+                    Rng(cs ^ 0x2545F491).shuffle(pos)
+                    pos = sorted(pos[:total])
+                    under = PT.make_array(t, gen_array_elems(t, big, cs, mode, affine))
+                    mask = imath.IntArray(big)
+                    for p in pos:
+                        mask[p] = 1
+                    arr = under[mask]
+                    self.tracked.append(("arg%d.underlying" % i, t, under))
+                else:
+                    arr = PT.make_array(t, gen_array_elems(t, total, cs, mode, affine))
+                    self.tracked.append(("arg%d" % i, t, arr))
                 self.args.append(arr)
             else:
                 arr = PT.make_array(t, gen_array_elems(t, n, cs, mode, affine))
@@ -265,8 +287,14 @@ class World:
                 self.args.append(arr)
 
     def mismatched(self, plan):
-        lens = set(len(x) for x, a in zip(self.args, plan["args"]) if PT.is_array(a["t"]) and a.get("kind") != "unmasked")
-        return len(lens) > 1
+        arrs = [(x, a) for x, a in zip(self.args, plan["args"]) if PT.is_array(a["t"]) and a.get("kind") != "unmasked"]
+        if not arrs:
+            return False
+        legal = {len(arrs[0][0])}
+        a0 = plan["args"][0]
+        if a0.get("kind") == "masked":
+            legal.add(a0["n"] + a0.get("extra", 0))     # the unmasked length is a legal operand length for a masked left-hand side
+        return any(len(x) not in legal for x, a in arrs)
 
     def call(self, entry):
         if entry["owner"]:
@@ -302,7 +330,7 @@ def pack_result(res):
     if isinstance(res, int):
         return ("i", res)
     if isinstance(res, float):
-        return ("f", struct.pack("<d", res))
+        return ("f", struct.pack("<d", float("nan") if res != res else res))
     if isinstance(res, tuple):
         return ("T",) + tuple(pack_result(x) for x in res)
     return ("R", tn, repr(res))
